@@ -76,13 +76,29 @@ def registered_closure(world, modname, outer, api_suffix):
     call, not the name of the nested function."""
     r, syms, m, fn, sc = eval_function(world, modname, outer)
     ev = world.ev
-    regs = [t for e in sc.effects for t in walk(e) if t.op == "call" and t.fn.op == "ref" and t.fn.ref.qual.endswith(api_suffix)]
-    if len(regs) != 1 or len(regs[0].args) < 2:
-        raise AnalysisError(f"anchor {modname}:{outer} no longer registers exactly one function with {api_suffix}")
-    clo, pre, prekw = ev.as_closure(regs[0].args[-1])
+    # (with an early return the effects of each path travel inside the result term: if(c ? seq[..](None) : seq[..](None)))
+    regs = [t for e in list(sc.effects) + ([r] if r is not None else []) for t in walk(e) if t.op == "call" and t.fn.op == "ref" and t.fn.ref.qual.endswith(api_suffix)]
+    uniq = []
+    for t in regs:
+        if not any(t is u for u in uniq):
+            uniq.append(t)
+    regs = uniq
+    if not regs or any(len(t.args) < 2 for t in regs):
+        raise AnalysisError(f"anchor {modname}:{outer} no longer registers a function with {api_suffix}")
+    # several registrations (a special-cased dispatcher on an early-return path next to the general one): the LAST one
+    # in program order is the general dispatcher the alignment rules analyse; the others are recorded and have to meet
+    # the part of the contract that can be stated for any dispatcher (kernel_core.dispatch, extra-dispatcher clause)
+    if not hasattr(world, "extra_dispatchers"):
+        world.extra_dispatchers = {}
+    extras = []
+    for t in regs[:-1]:
+        c_, p_, k_ = ev.as_closure(t.args[-1])
+        extras.append((t, c_, p_, k_))
+    world.extra_dispatchers[(modname, outer)] = extras
+    clo, pre, prekw = ev.as_closure(regs[-1].args[-1])
     if clo is None:
         raise AnalysisError(f"anchor {modname}:{outer}: the function handed to {api_suffix} is not inlinable")
-    return clo, pre, prekw, syms, m, fn, sc, regs[0]
+    return clo, pre, prekw, syms, m, fn, sc, regs[-1]
 
 
 def returned_closure(world, modname, outer):
